@@ -66,6 +66,25 @@ Fixpoint args_complete (opts : list (string * bool)) (toks : list string) : bool
       else args_complete opts r
   end.
 
+(* the tokens for which the declarative reading of a command line is claimed: a flag token
+   either is registered exactly, or glues an argument to exactly one registered one-letter flag
+   that takes one, or matches nothing at all; it is NOT an abbreviation (proper prefix) of a
+   registered flag, and no text is glued to a one-letter flag that takes no argument *)
+Definition plain_tok (opts : list (string * bool)) (t : string) : bool :=
+  if negb (starts_dash t) then true else
+  match find (fun o => String.eqb (fst o) t) opts with
+  | Some (_, b) => Bool.eqb b (separate_arg opts t)
+  | None =>
+      let short := filter (fun o => Nat.eqb (String.length (fst o)) 2 && String.prefix (fst o) t) opts in
+      let abbr := filter (fun o => String.prefix t (fst o)) opts in
+      if double_dash t then match short with [] => true | _ => false end
+      else match short, abbr with
+           | [], [] => true
+           | [(_, takes)], [] => takes
+           | _, _ => false
+           end
+  end.
+
 Definition usable (fs : fsys) (e : dbentry) : bool :=
   match db_argv0 e with None => false | Some _ => is_source source_extensions (db_file e) && isfile fs (db_file e) end.
 
@@ -135,6 +154,10 @@ Definition sev_of_event (e : event) : sev := SMissingInclude (ev_file e) (ev_tag
 (* no flag of any command lacks its argument (argparse rejects such a command line) *)
 Definition commands_complete (fs : fsys) (pls : list (string * list dbentry)) : bool :=
   forallb (fun pl => forallb (fun e => negb (usable fs e) || args_complete (opts_of e) (toks_of e)) (snd pl)) pls.
+
+(* every usable command consists of plain tokens *)
+Definition commands_plain (fs : fsys) (pls : list (string * list dbentry)) : bool :=
+  forallb (fun pl => forallb (fun e => negb (usable fs e) || forallb (plain_tok (opts_of e)) (toks_of e)) (snd pl)) pls.
 
 (* ---------- a whole run ---------- *)
 Definition run_find_S (c : cfs) (fuel : nat) (codebase : list path) (pls : list (string * list dbentry)) : res (list sev) :=
